@@ -195,10 +195,46 @@ SURFACE_SPECIES
 """
 
 
+SECOND_SURFACE = """SURFACE_MASTER_SPECIES
+ Sur_a Sur_aOH
+SURFACE_SPECIES
+ Sur_aOH = Sur_aOH
+ log_k 0
+ Sur_aOH + H+ = Sur_aOH2+
+ log_k 6.5
+ Sur_aOH = Sur_aO- + H+
+ log_k -7.5
+ Sur_aOH + Ca+2 = Sur_aOCa+ + H+
+ log_k -5.0
+ Sur_aOH + Mg+2 = Sur_aOMg+ + H+
+ log_k -5.4
+"""
+
+
 def surface_text(rng, n, soln, db):
-    variant = rng.choice(["ddl", "ddl", "no_edl", "diffuse_layer", "donnan", "cd_music", "cd_music", "ccm", "explicit"])
+    variant = rng.choice(["ddl", "ddl", "no_edl", "diffuse_layer", "donnan", "cd_music", "cd_music", "ccm", "explicit",
+                          "two", "two", "two"])
     lines = ["SURFACE %d" % n]
     area, grams = rng.choice([600, 100, 50]), rng.choice([1, 0.5, 5])
+    if variant == "two":
+        # two distinct surfaces (two charge components: Hfo and the input-defined Sur), each with its own diffuse layer
+        lines.append(" Hfo_w %s %d %s" % (fmt(rng.uniform(1e-4, 5e-3)), area, fmt(grams)))
+        if rng.random() < 0.5:
+            lines.append(" Hfo_s %s" % fmt(rng.uniform(1e-5, 2e-4)))
+        lines.append(" Sur_a %s %d %s" % (fmt(rng.uniform(1e-4, 3e-3)), rng.choice([100, 300, 40]), fmt(rng.choice([1, 3, 0.5]))))
+        lines.append(" -equilibrate %d" % soln)
+        dl = rng.choice(["donnan", "donnan", "donnan", "donnan_debye", "donnan_debye", "diffuse_layer", "none", "ddl_only"])
+        if dl == "donnan":
+            lines.append(" -donnan %s" % rng.choice(["", "1e-8", "3e-9"]))
+        elif dl == "donnan_debye":
+            lines.append(" -donnan debye_lengths %s limit_ddl 0.8" % fmt(rng.choice([1, 2, 3])))
+        elif dl == "diffuse_layer":
+            lines.append(" -diffuse_layer %s" % fmt(rng.choice([1e-8, 1e-9, 5e-9])))
+        elif dl == "none":
+            lines.append(" -no_edl")
+        if dl in ("donnan", "diffuse_layer") and rng.random() < 0.25:
+            lines.append(" -only_counter_ions")
+        return SECOND_SURFACE + "\n".join(lines) + "\n", ["surf:two_surfaces", "surf:two/" + dl]
     if variant == "cd_music":
         # species with proper CD-MUSIC charge distributions (the Hfo species of the databases have none: known finding)
         lines.append(" Goe_uniOH-0.5 %s %d %s" % (fmt(rng.uniform(1e-4, 5e-3)), area, fmt(grams)))
@@ -416,11 +452,11 @@ def history(rng, forced=None):
             tg = ["surf:related_rate"]
         else:
             t, tg = surface_text(rng, 1, 1, db)
-            while db == "iso.dat" and "cd_music" in tg[0]:
+            while db == "iso.dat" and ("cd_music" in tg[0] or "two" in tg[0]):
                 t, tg = surface_text(rng, 1, 1, db)        # species definitions in the input do not load on top of iso.dat
         t0.append(t)
         tags += tg
-        surfaces = ["Goe" if "Goe_uni" in t else "Hfo"]
+        surfaces = ["Goe"] if "Goe_uni" in t else (["Hfo", "Sur"] if "Sur_a" in t else ["Hfo"])
     if "gas_phase" in kinds:
         t, tg = gas_text(rng, 1, 1, db)
         t0.append(t)
